@@ -607,7 +607,7 @@ Lemma bridge_hash_key h k :
                  | SText s => Z.land (adler32 (utf8 h s)) 4294967295
                  | SInt z => z mod 4294967295
                  | SReal f => Z.land (adler32 (pack_d h f)) 4294967295
-                 | SNull => Z.land (adler32 (pack_d h FNaN)) 4294967295
+                 | SNull => Z.land (adler32 (pack_d h FNaN)) 4294967295   (* never produced by put: put_never_null *)
                  end.
 Proof. destruct k; reflexivity. Qed.
 
@@ -622,8 +622,16 @@ Proof. unfold shard, shard_of, hash_of. destruct (put c k); reflexivity. Qed.
 Lemma shard_int c h z n : in_int64 z = true -> shard c h (VInt z) n = Some ((z mod 4294967295) mod n).
 Proof. intros H. rewrite shard_closed_form, put_spec, H. reflexivity. Qed.
 
-Lemma shard_float c h f n : shard c h (VFloat f) n = Some (Z.land (adler32 (pack_d h f)) 4294967295 mod n).
-Proof. rewrite shard_closed_form, put_spec. destruct f; reflexivity. Qed.
+Lemma shard_float c h f n : is_nan (VFloat f) = false ->
+  shard c h (VFloat f) n = Some (Z.land (adler32 (pack_d h f)) 4294967295 mod n).
+Proof. intros N. rewrite shard_closed_form, put_spec. destruct f; [discriminate N|reflexivity..]. Qed.
+
+(* float('nan') is pickled by Disk.put (repair of C02-F2), so it routes like every pickled key: adler32 of the pickle.
+   (The released put bound it as NULL, which Disk.hash packed as the double NaN: another shard in general, but no entry
+   stored under NaN could be found by key in any shard.) *)
+Lemma shard_nan c h n :
+  shard c h (VFloat FNaN) n = Some (Z.land (adler32 (pkk c (VFloat FNaN))) 4294967295 mod n).
+Proof. rewrite shard_closed_form, put_spec. reflexivity. Qed.
 
 (* FULL statement (refuted below):
      forall c h k1 k2 n, key_domain k1 = true -> key_domain k2 = true -> key_eq k1 k2 = true -> 0 < n ->
@@ -635,7 +643,7 @@ Theorem routing_respects_eq_refuted :
     forall c h, pack_d h (FFin 1 0) = [63; 240; 0; 0; 0; 0; 0; 0] -> shard c h k1 n <> shard c h k2 n.
 Proof.
   exists (VInt 1), (VFloat (FFin 1 0)), 8. repeat split; try reflexivity.
-  intros c h Hp. rewrite shard_int by reflexivity. rewrite shard_float. rewrite Hp.
+  intros c h Hp. rewrite shard_int by reflexivity. rewrite shard_float by reflexivity. rewrite Hp.
   vm_compute. discriminate.
 Qed.
 
@@ -648,7 +656,7 @@ Theorem routing_zeros_refuted :
       shard c h (VFloat (FZero false)) n <> shard c h (VFloat (FZero true)) n.
 Proof.
   exists 13. repeat split; try reflexivity;
-    rewrite ?shard_int by reflexivity; rewrite !shard_float; rewrite ?H, ?H0; vm_compute; discriminate.
+    rewrite ?shard_int by reflexivity; rewrite !shard_float by reflexivity; rewrite ?H, ?H0; vm_compute; discriminate.
 Qed.
 
 (* the excluded region: an int with a float, or two floats that are not the same float (0.0 / -0.0) *)
